@@ -9,7 +9,7 @@ mkdir -p $D
 if [ -z "$NOBUILD" ]; then ./check build >/dev/null || exit 2; fi
 cp sim/target/release/axsim $D/axsim; cp known_findings.json $D/
 for s in $(seq $A $B); do
-  VERIF_SEED=$s VERIF_MAX_MINIMISE=0 VERIF_DIR=$D ${WORKERS:+VERIF_WORKERS=$WORKERS} $D/axsim run $P $T >$D/log 2>&1; rc=$?
+  env VERIF_SEED=$s VERIF_MAX_MINIMISE=0 VERIF_DIR=$D ${WORKERS:+VERIF_WORKERS=$WORKERS} $D/axsim run $P $T >$D/log 2>&1; rc=$?
   python3 - "$D" "$P" "$s" "$rc" <<'PY'
 import json,sys
 d,p,s,rc=sys.argv[1:5]
